@@ -68,6 +68,47 @@ func c12Producer(r *Run, t *tape.Tape) {
 		base = dedupLayer(base)
 	}
 	h := libHeaders(base, Spelling{T: t, Labels: true, Values: true}, true)
+	// a base header that ALREADY says what the calls are going to say (an
+	// issuer that fills in 258/259/260 itself, or takes the headers of an
+	// earlier envelope over, with or without its alg): nothing is left for
+	// the helper to add, which is no licence to hand the caller's map on to
+	// the signing step
+	var pre *cose.HashEnvelopePayload
+	if t.Bool(1, 6, "c12.preload") {
+		pre = &cose.HashEnvelopePayload{HashAlgorithm: cose.Algorithm([]int64{refcose.AlgSHA256, refcose.AlgSHA384, refcose.AlgSHA512}[t.Choose(3, "c12.preload.hash")])}
+		if h.Protected == nil {
+			h.Protected = cose.ProtectedHeader{}
+		}
+		for _, l := range []int64{258, 259, 260} {
+			for k := range h.Protected {
+				if v, ok := asInt64(k); ok && v == l {
+					delete(h.Protected, k)
+				}
+			}
+		}
+		h.Protected[int64(258)] = pre.HashAlgorithm
+		switch t.Choose(3, "c12.preload.ct") {
+		case 1:
+			pre.PreimageContentType = "application/" + genText(t, 6)
+			h.Protected[int64(259)] = pre.PreimageContentType
+		case 2:
+			pre.PreimageContentType = uint(t.Choose(70000, "c12.preload.ct.n"))
+			h.Protected[int64(259)] = pre.PreimageContentType
+		}
+		if t.Bool(1, 2, "c12.preload.loc") {
+			pre.Location = "https://example.test/" + genText(t, 12)
+			h.Protected[int64(260)] = pre.Location
+		}
+		if t.Bool(1, 2, "c12.preload.noalg") {
+			for k := range h.Protected {
+				if v, ok := asInt64(k); ok && v == refcose.LAlg {
+					delete(h.Protected, k)
+				}
+			}
+		}
+		class += "+preloaded"
+		r.Fired("base-headers-preloaded-with-envelope-parameters")
+	}
 	if t.Bool(1, 4, "c12.rawprot") {
 		// caller-supplied raw protected bytes (documented: discarded)
 		h.RawProtected = []byte{0x43, 0xa1, 0x01, 0x26}
@@ -156,6 +197,17 @@ func c12Producer(r *Run, t *tape.Tape) {
 		}
 		if t.Bool(1, 2, "c12.loc") {
 			p.Location = "https://example.test/" + genText(t, 12)
+		}
+		if pre != nil && t.Bool(3, 4, "c12.preload.same") {
+			// this call says exactly what the base header holds already
+			p.HashAlgorithm, p.PreimageContentType, p.Location = pre.HashAlgorithm, pre.PreimageContentType, pre.Location
+			ha, registered = int64(pre.HashAlgorithm), false
+			if lenClass == "right-length" {
+				p.HashValue = t.Bytes(refcose.HashLen(ha), "c12.preload.digest")
+			} else if len(p.HashValue) == refcose.HashLen(ha) {
+				lenClass = "right-length"
+			}
+			ctClass = "as-preloaded"
 		}
 		var env []byte
 		var err error
